@@ -222,12 +222,43 @@ def _check_rotated(st, o, rm, f):
         raise Violation("rot.outside", f"cell at {P[i].tolist()} whose back-rotated centre {(back[i] + c).tolist()} lies outside the original region carries {got[i].tolist()}, not zero", preds=[content["t"]], kind="H")
 
 
+def _antiparallel(st, o, h, rm):
+    """align_vector(initial=v, final=-c*v): any half turn about an axis perpendicular to v
+    qualifies, so only what every such rotation shares is checked: a uniform field along v
+    comes out reversed in the interior. The accumulated rotation is unknown afterwards."""
+    c = rm.content
+    if c is None or c["t"] != "uniform" or rm.nrot != 0:
+        return "skipped"
+    v = np.asarray(c["v"], dtype=float)
+    vs = v[rm.perm]
+    if not np.any(vs):
+        return "skipped"
+    res = sut(h.obj.rotate, "align_vector", initial=list(vs * o["sa"]), final=list(-vs * o["sb"]))
+    expect_ok(res, "rotate(align_vector, initial=v, final=-v)", "H", preds=["antiparallel"])
+    f = h.obj.field
+    got = np.asarray(f.array).reshape(-1, 3)
+    nz = np.any(got != 0, axis=1)
+    st.stats.oracle("H")
+    st.stats.probe("antiparallel_alignment")
+    tol = 1e-9 * float(np.max(np.abs(v)))
+    if nz.any() and not np.all(np.abs(got[nz] + v) <= tol):
+        i = int(np.argwhere(nz & ~np.all(np.abs(got + v) <= tol, axis=1))[0][0])
+        raise Violation("rot.antiparallel", f"aligning v={v.tolist()} with -v must reverse the uniform field, but a non-zero cell carries {got[i].tolist()}", kind="H")
+    rm.unmodelled = True
+    rm.nrot += 1
+    return "antiparallel"
+
+
 @op("Q.rotate")
 def op_qrotate(st, o):
     h = st.h[o["on"]]
     if h.kind != "Q":
         return "skipped"
     rm = h.box.v
+    if getattr(rm, "unmodelled", False):
+        return "skipped"  # after a half turn about an unspecified axis the model has no Q until the next clear
+    if o.get("antiparallel"):
+        return _antiparallel(st, o, h, rm)
     R = rotation_matrix(o["method"], o["args"])
     a, kw = lib_args(o["method"], o["args"])
     if o.get("n") is not None:
@@ -242,6 +273,19 @@ def op_qrotate(st, o):
     rm.nrot += 1
     _check_rotated(st, o, rm, h.obj.field)
     return o["method"]
+
+
+@op("Q.keep")
+def op_qkeep(st, o):
+    """The caller keeps the current result field; later rotations of the rotator must
+    not change it (whole-heap refinement on the kept handle)."""
+    h = st.h[o["on"]]
+    if h.kind != "Q" or h.box.v.nrot == 0:
+        return "skipped"
+    f = h.obj.field
+    st.add("F", f, Box(adopt_mesh(f.mesh)), FieldM.adopt(f), slot=o["out"], meta={"from": "Q.keep"})
+    st.stats.probe("kept_result")
+    return "kept"
 
 
 @op("Q.clear")
@@ -261,6 +305,7 @@ def op_qclear(st, o):
         raise Violation("rot.clear", "after clear_rotation the field is not the original: " + "; ".join(bad[:3]), kind="H")
     rm.Q = np.eye(3)
     rm.nrot = 0
+    rm.unmodelled = False
     st.extra["just_cleared"] = o["on"]
     st.stats.probe("clear")
     return "cleared"
